@@ -615,9 +615,13 @@ def scripted_runs(ctx, cases, checker, prop_name, shard=20):
             if lost:
                 ctx.violation("property", "start_jobs_without_delay=False: trials %s were started but no later poll lists them" % lost,
                               case=rep, signature=dict(check="sjwd_false", event="started_trial_never_polled"))
-        if out["outcome"][0] in ("ckpt_missing", "exception") or out.get("copy_fault") is not None:
-            ctx.h("outside_model", out["outcome"][0])   # a fault inside start_trial is not part of model/Tuner.v
+        if out["outcome"][0] == "exception":
+            ctx.h("outside_model", out["outcome"][0])   # an exception model/Tuner.v has no counterpart for
             continue
+        if out.get("copy_fault") is not None:
+            # a start that failed half-way (copy_checkpoint raised inside start_trial) IS part of model/Tuner.v:
+            # schedule_k / ckpt_missing / ECkptMissing; the run is compared event for event like every other
+            ctx.h("failed_start_compared_with_model", out["outcome"][0])
         terms.append(coq_case(case, out))
         meta.append((rep, out))
     if terms:
